@@ -202,7 +202,9 @@ class SGraph:
             if not (dependency in dependencies or SchedulerConfig.match_item_keys(dependency.name, item.block)):
                 dependency.config['is_ignored'] = (
                     item.is_ignored or
-                    bool(SchedulerConfig.match_item_keys(dependency.name, item.ignore, match_item_parents=True))
+                    bool(SchedulerConfig.match_item_keys(
+                        dependency.name, item.ignore, use_pattern_matching=True, match_item_parents=True
+                    ))
                 )
                 dependencies += (dependency,)
 
